@@ -10,10 +10,11 @@ class Item:
         self.name = name
         self.text = text
         self.needs = set(needs)
+        self.mneeds = set()          # needed only through the signatures of (virtual) methods: when methods or vtables are generated
         self.members = extra or []   # enumerator names for enums
 
 
-def generate(rng, n=None):
+def generate(rng, n=None, cxx=False):
     n = n or rng.randint(8, 22)
     items = []
     types = []   # (spelling, needed item name or None)
@@ -35,6 +36,27 @@ def generate(rng, n=None):
         sfx = suffixes[k % len(suffixes)] + ("_%d" % (k // len(suffixes)) if k >= len(suffixes) else "")
         k += 1
         r = rng.random()
+        if cxx and r < 0.12:
+            # polymorphic class: the types of its (pure) virtual methods' signatures are needed by the generated vtable struct
+            name = "S_" + sfx
+            needs, meths = set(), []
+            for j in range(rng.randint(1, 3)):
+                rsp, need = pick_type(allow_void=True)
+                if need:
+                    needs.add(need)
+                ps = []
+                for q in range(rng.randint(0, 2)):
+                    sp, need2 = pick_type()
+                    ps.append("%s a%d" % (sp, q))
+                    if need2:
+                        needs.add(need2)
+                meths.append("virtual %s pm%d(%s)%s;" % (rsp, j, ", ".join(ps), rng.choice([" = 0", " = 0", ""])))
+            it = Item("type", name, "struct %s { %s int plain; };" % (name, " ".join(meths)), [])
+            it.mneeds = set(needs)
+            it.sub = "struct"
+            items.append(it)
+            types.append(("struct " + name + " *", name))       # possibly abstract: only ever used through pointers
+            continue
         if r < 0.3:
             name = "S_" + sfx
             fields, needs = [], set()
@@ -127,5 +149,5 @@ def closure(items, roots):
         if x in seen or x not in by:
             continue
         seen.add(x)
-        stack.extend(by[x].needs)
+        stack.extend(by[x].needs | by[x].mneeds)
     return seen
